@@ -224,7 +224,7 @@ Proof.
   - (* UWhen *) cbn [safe]. auto.
   - (* UCast *) cbn [safe]. auto.
   - (* UAlias *) auto.
-  - (* UGetItemLit *) destruct a; try discriminate. reflexivity.
+  - (* UGetItemLit *) destruct a; try discriminate. rewrite EG. reflexivity.
   - (* UGetItemCol *) destruct a; try discriminate.
     match goal with E : (_ =? _)%Z = true |- _ => apply Z.eqb_eq in E; rewrite E end.
     unfold offset_key. cbn [Z.eqb Z.ltb Z.compare Pos.compare build safe rstop andb]. ih H0 Si.
